@@ -76,3 +76,72 @@ func VerifC15_AlignTraps() {
 	verifObserve("c15", tl, ql, len(hits))
 	verifReach("end")
 }
+
+const verifTemplate = "acgtcatgcaagtctgac"
+
+// VerifC15_Gapped: sequences long enough for gapped hits. The target is a fixed template; the
+// query is the template with `del` letters removed at `delpos` (so the best alignment needs a
+// gap), and the query positions selected by the bit mask `sym` are symbolic letters.
+func VerifC15_Gapped() {
+	tl, del, delpos, mask := verifParam("tlen"), verifParam("del"), verifParam("delpos"), verifParam("sym")
+	minLen, minIdPct, k := verifParam("minlen"), verifParam("minid"), verifParam("k")
+	vecBuffering = 8
+	code := func(c byte) int {
+		switch c {
+		case 'a':
+			return 0
+		case 'c':
+			return 1
+		case 'g':
+			return 2
+		}
+		return 3
+	}
+	tc := make([]int, tl)
+	for i := range tc {
+		tc[i] = code(verifTemplate[i])
+	}
+	var qc []int
+	for i := 0; i < tl; i++ {
+		if i >= delpos && i < delpos+del {
+			continue
+		}
+		qc = append(qc, tc[i])
+	}
+	for i := range qc {
+		if mask&(1<<uint(i)) != 0 {
+			qc[i] = verifInt("q"+string(rune('a'+i)), 0, 3)
+		}
+	}
+	mk := func(name string, c []int) *linear.Seq {
+		ls := make([]alphabet.Letter, len(c))
+		for i, x := range c {
+			ls[i] = alphabet.Letter("acgt"[x])
+		}
+		return linear.NewSeq(name, ls, alphabet.DNA)
+	}
+	target, query := mk("t", tc), mk("q", qc)
+	ql := len(qc)
+	minId := float64(minIdPct) / 100
+	a := NewAligner(target, query, k, minLen, minId)
+	a.Costs = &Costs{MaxIGap: 5, DiffCost: 3, SameCost: 1, MatchCost: 4, BlockCost: 15, RMatchCost: 4}
+	hits := a.AlignTraps(filter.Trapezoids{{Bottom: 0, Top: ql, Left: -tl, Right: ql}})
+	gapped := 0
+	for _, h := range hits {
+		ab, ae := verifConcrete(h.Abpos), verifConcrete(h.Aepos)
+		bb, be := verifConcrete(h.Bbpos), verifConcrete(h.Bepos)
+		inside := 0 <= ab && ab <= ae && ae <= tl && 0 <= bb && bb <= be && be <= ql
+		verifAssert(inside, "hit-within-both-sequences")
+		if !inside {
+			continue
+		}
+		verifAssert(ae-ab >= minLen && be-bb >= minLen, "hit-at-least-minimum-length-on-both")
+		verifAssert(h.Error <= 1-minId, "reported-error-within-one-minus-identity")
+		verifAssert(h.Score <= verifGlobal(tc[ab:ae], qc[bb:be]), "score-not-above-optimal-global-score-of-the-regions")
+		if ae-ab != be-bb {
+			gapped++
+		}
+	}
+	verifObserve("c15g", tl, ql, len(hits), gapped)
+	verifReach("end")
+}
